@@ -54,8 +54,15 @@ def build_jobs(ctx, gcs, embs):
         vec = gc["even"] and not with_inf and rng.random() < 0.7
         tr = rng.choice([None, 0, 1]) if not with_inf else None  # the transformer's fit learns stop=inf from infinite bars (outside C08's domain)
         dv = hom == 0 or pos == 2
+        # which bounds the TRANSFORMER is given: both / none (as the landscape) or only one of them, the other being learned by fit -- possible
+        # when the learned bound coincides with the grid (smallest birth = start, resp. largest death = stop)
+        minb_ok = min(b for b, _, _ in bars) == gc["a"]
+        maxd_ok = max(d for _, d, _ in bars) == gc["a"] + (gc["n"] - 1) * gc["s"]
+        trb = "both" if explicit else "none"
+        opts = [trb] + (["stop"] * 2 if minb_ok else []) + (["start"] * 2 if maxd_ok else [])
+        trb = rng.choice(opts)
         jobs.append(dict(dgms=fl_dgms, hom_deg=hom, n=gc["n"], start=e.f(gc["a"]), stop=e.f(gc["a"] + (gc["n"] - 1) * gc["s"]),
-                         explicit=explicit, vec=vec, tr=tr, dv=bool(dv)))
+                         explicit=explicit, vec=vec, tr=tr, dv=bool(dv), trb=trb))
         skels.append(dict(dgms=dg, hom_deg=hom, a=gc["a"], n=gc["n"], s=gc["s"], exactemb=int(e.exact)))
     return jobs, skels
 
